@@ -18,7 +18,9 @@ func stringify(v *Val, inProcess util.PtrSet) string {
 		if inProcess.Contains(v) {
 			return fmt.Sprintf("recursive-val %s@%p", v.Type, v)
 		} else {
+			// on the current path only: a value shared by two siblings is not recursive
 			inProcess.Add(v)
+			defer inProcess.Remove(v)
 		}
 	}
 
